@@ -432,6 +432,38 @@ func (fx *fnExec) execBuiltin(dst *ssa.Call, b *ssa.Builtin, c *ssa.CallCommon, 
 		env := fx.curEnv()
 		env.names["ch"] = args[0]
 		fx.runHooks("close", c.Args[0].Name(), env, where)
+	case "SliceData":
+		// unsafe.SliceData(s): remembered so that unsafe.String(SliceData(s), n) can be read as "the first n bytes of s"
+		sl, ok := args[0].(Sl)
+		if !ok {
+			panic(vcErr("unsafe.SliceData of %T", args[0]))
+		}
+		if fx.sliceData == nil {
+			fx.sliceData = map[ssa.Value]Sl{}
+		}
+		r := Sc{fx.freshConst("slicedata", SInt), nil}
+		if dst != nil {
+			fx.sliceData[dst] = sl
+		}
+		fx.setResult(dst, r)
+	case "String":
+		// unsafe.String(unsafe.SliceData(s), n): a string whose bytes are s[0:n] (as they are now)
+		src, isCall := c.Args[0].(*ssa.Call)
+		sl, known := fx.sliceData[ssa.Value(src)]
+		if !isCall || !known || fx.mode != "int" {
+			panic(vcErr("unsafe.String of an untracked pointer"))
+		}
+		et := sl.Elem
+		n := fx.idx(args[1])
+		fx.needStr()
+		r := fx.freshConst("ustr", SStr)
+		fx.oblige("safety:unsafe-string", "safety", tAnd(app(SBool, "<=", intLit64(0), n), app(SBool, "<=", n, sl.Len)), where, "0 <= n <= len(s) in unsafe.String(SliceData(s), n)")
+		fx.assume(tEq(app(SInt, "slen", r), n))
+		h := fx.heap(fx.st, "E."+typeKey(et), arrSort(SInt, arrSort(SInt, SInt)))
+		kq := Term{"k$q", SInt}
+		fx.assume(Term{fmt.Sprintf("(forall ((k$q Int)) (! (=> (and (<= 0 k$q) (< k$q %s)) (= (sat %s k$q) (select (select %s %s) %s))) :pattern ((sat %s k$q))))",
+			n.S, r.S, h.S, sl.Arr.S, fx.eIdx(sl.Off, kq).S, r.S), SBool})
+		fx.setResult(dst, Sc{r, types.Typ[types.String]})
 	case "clear":
 		panic(vcErr("builtin clear unsupported"))
 	case "recover":
